@@ -536,6 +536,9 @@ class Engine:
                 return o.fields[attr]
             return BoundMethod(o, attr)
         if isinstance(o, Sym):
+            h = self.spec.sym_getattr(self, o, attr, node)
+            if h is not NotImplemented:
+                return h
             if isinstance(o.ty, TRec) and attr in o.ty.fields:
                 return o.ty.get(o.term, attr)
             if isinstance(o.ty, TOpt):
